@@ -443,6 +443,143 @@ def frameset_ok(ctx):
     r.check("C01.6", "framesetOK" not in norm(g.node), "frameset-ok:space", g.where, "white space in body touches the frameset-ok flag")
 
 
+# ---------------------------------------------------------------------------- C01.7 reconstruct
+RECONSTRUCT_START_TAGS = {
+    "a", "b", "big", "code", "em", "font", "i", "s", "small", "strike", "strong", "tt", "u", "nobr", "button", "applet",
+    "marquee", "object", "xmp", "area", "br", "embed", "img", "keygen", "wbr", "input", "select", "optgroup", "option",
+    "math", "svg", "image", FRESH,
+    "noscript",      # with scripting disabled it is "any other start tag" (reconstructs); with scripting enabled raw text
+}
+
+
+def reconstruct(ctx):
+    """(i) the in-body start tags whose handler reconstructs the active formatting elements are the standard's list;
+    (ii) where a handler inserts the token's element after reconstructing, no call that can change the stack of open
+    elements / the list of active formatting elements (processEndTag, endTag*) lies between the last reconstruction
+    and the insertion."""
+    r = ctx.r
+    pm = model(ctx)
+    inbody = pm.phases["inBody"]
+    tab = pm.table_for(inbody, "startTagHandler")
+
+    def recon(f, name, depth=0, seen=None):
+        seen = seen or set()
+        if f.fq in seen or depth > 3:
+            return False
+        seen.add(f.fq)
+        lt = pm.local_types(f)
+        for c in walk_no_nested(f.node):
+            if isinstance(c, ast.Call) and isinstance(c.func, ast.Attribute):
+                if c.func.attr == "reconstructActiveFormattingElements":
+                    return True
+                for g, gn in pm.resolve_call(f, c, name, lt):
+                    if g is not None and g.cls is not None and g.cls.is_subclass_of(pm.Phase) and g.module is f.module \
+                            and (gn == name or (name == "image" and gn == "img")) and g.cls is inbody:
+                        if recon(g, gn, depth + 1, seen):
+                            return True
+        return False
+    names = dict(tab.map)
+    got = {k for k, f in names.items() if recon(f, k)}
+    if tab.default is not None and recon(tab.default, FRESH):
+        got.add(FRESH)
+    for k in sorted(got | RECONSTRUCT_START_TAGS | set(names), key=str):
+        label = "<any other>" if k == FRESH else k
+        r.check("C01.7", (k in got) == (k in RECONSTRUCT_START_TAGS), "reconstruct:%s" % label, tab.where,
+                "start tag <%s> in body %s the active formatting elements; the standard %s" % (
+                    label, "reconstructs" if k in got else "does not reconstruct",
+                    "does" if k in RECONSTRUCT_START_TAGS else "does not"), {"name": label}, detail={"name": label})
+    # (ii) freshness
+    mod = ctx.repo.module(PARSER_REL)
+    n = 0
+    for f in mod.all_functions:
+        if f.cls is None or not f.cls.is_subclass_of(pm.Phase):
+            continue
+        recs = [c for c in walk_no_nested(f.node) if isinstance(c, ast.Call) and isinstance(c.func, ast.Attribute)
+                and c.func.attr == "reconstructActiveFormattingElements"]
+        if not recs:
+            continue
+        cfg = CFG(f.node)
+        inserts = [x for x in cfg.stmt_nodes() if any(
+            isinstance(c.func, ast.Attribute) and c.func.attr in ("insertElement", "addFormattingElement", "insertText")
+            for c in node_calls(x))]
+        is_rec = lambda x: any(isinstance(c.func, ast.Attribute) and c.func.attr == "reconstructActiveFormattingElements" for c in node_calls(x))  # noqa: E731
+        dirty = lambda x: any(isinstance(c.func, ast.Attribute) and (c.func.attr in ("processEndTag", "processStartTag") or  # noqa: E731
+                                                                     c.func.attr.startswith("endTag")) for c in node_calls(x))
+        for ins in inserts:
+            # only insertions that some reconstruction can precede
+            par_all = cfg.reach_backward([ins], lambda x: False)
+            if not any(is_rec(cfg.nodes[i]) for i in par_all):
+                continue
+            n += 1
+            par = cfg.reach_backward([ins], is_rec)
+            stale = [cfg.nodes[i] for i in par if dirty(cfg.nodes[i])]
+            r.check("C01.7", not stale, "fresh-reconstruct::%s@%s" % (f.qual, ins.text[:30]), "%s:%d" % (PARSER_REL, ins.lineno),
+                    "%s inserts after `%s`, which can change the stack / formatting list, without reconstructing the active "
+                    "formatting elements again" % (f.qual, stale[0].text[:60] if stale else ""), detail={"handler": f.qual})
+    if n < 10:
+        raise AnalysisError("C01.7 matched %d insertions after a reconstruction (expected >= 10)" % n)
+
+
+# ---------------------------------------------------------------------------- C01.8 direction of stack searches
+SEARCH_DIRECTION = {
+    ("HTMLParser.resetInsertionMode", "openElements"): "reverse",
+    ("InBodyPhase.addFormattingElement", "activeFormattingElements"): "reverse",
+    ("InBodyPhase.processEOF", "openElements"): "either",           # only reports an error
+    ("InBodyPhase.startTagListItem", "openElements"): "reverse",
+    ("AfterHeadPhase.startTagFromHead", "openElements"): "reverse",
+    ("InBodyPhase.endTagBody", "openElements"): "either",           # only reports an error
+    ("InBodyPhase.endTagFormatting", "openElements"): "forward",     # furthest block: topmost special element below the formatting element
+    ("InBodyPhase.endTagOther", "openElements"): "reverse",
+    ("TreeBuilder.elementInScope", "openElements"): "reverse",
+    ("TreeBuilder.elementInActiveFormattingElements", "activeFormattingElements"): "reverse",
+    ("TreeBuilder.getTableMisnestedNodePosition", "openElements"): "reverse",   # the *last* table in the stack
+    ("ActiveFormattingElements.append", "self"): "reverse",
+}
+
+
+def search_direction(ctx):
+    """Every first-match search over the stack of open elements / the list of active formatting elements runs in the
+    direction the standard prescribes (from the current node upwards, except the furthest-block search)."""
+    r = ctx.r
+    seen = set()
+    for rel in (PARSER_REL, "treebuilders/base.py"):
+        for f in ctx.repo.module(rel).all_functions:
+            for lp in walk_no_nested(f.node):
+                if not isinstance(lp, ast.For):
+                    continue
+                it = lp.iter
+                direction = "forward"
+                base = it
+                if isinstance(it, ast.Call) and norm(it.func) == "reversed" and it.args:
+                    direction, base = "reverse", it.args[0]
+                elif isinstance(it, ast.Subscript) and isinstance(it.slice, ast.Slice) and it.slice.step is not None and \
+                        norm(it.slice.step) == "-1" and it.slice.lower is None and it.slice.upper is None:
+                    direction, base = "reverse", it.value
+                elif isinstance(it, ast.Subscript) and isinstance(it.slice, ast.Slice):
+                    base = it.value
+                ch = attr_chain(base) or []
+                which = ch[-1] if ch else None
+                if which == "self" and not (f.cls is not None and f.cls.name == "ActiveFormattingElements"):
+                    continue
+                if which not in ("openElements", "activeFormattingElements", "self"):
+                    continue
+                first_match = any(isinstance(x, (ast.Break, ast.Return)) for s in lp.body for x in ast.walk(s))
+                if not first_match:
+                    continue
+                key = (f.qual, which)
+                seen.add(key)
+                exp = SEARCH_DIRECTION.get(key)
+                if exp is None:
+                    raise AnalysisError("first-match search over %s in %s is not in the direction table (classify it)" % (which, f.qual))
+                r.check("C01.8", exp == "either" or exp == direction, "direction::%s::%s" % key, "%s:%d" % (rel, lp.lineno),
+                        "%s searches %s %s; the standard's search runs %s (the first match must be the %s one)" % (
+                            f.qual, which, direction, exp, "most recently opened" if exp == "reverse" else "topmost"),
+                        {"function": f.qual, "direction": direction}, detail={"function": f.qual, "direction": direction})
+    missing = set(SEARCH_DIRECTION) - seen
+    if missing:
+        raise AnalysisError("stack searches vanished: %s" % sorted(missing))
+
+
 # ---------------------------------------------------------------------------- C01.4 / C02.7
 STANDARD_CONTENT_MODEL = {
     "title": {("rcdata", "always")}, "textarea": {("rcdata", "always")},
@@ -647,6 +784,8 @@ def run(ctx):
     r.rule("C01.4", "fragment context selects the tokenizer state its start-tag handler selects, under the same condition", floor=10)
     r.rule("C02.7", "element -> tokenizer state map of the start-tag handlers equals the standard's", floor=10)
     r.rule("C01.6", "the start tags that clear the frameset-ok flag in body are the standard's list; text clears it, white space does not", floor=20)
+    r.rule("C01.7", "active formatting elements are reconstructed for the standard's start tags, and freshly before each insertion", floor=60)
+    r.rule("C01.8", "first-match searches over the stack / formatting list run in the standard's direction", floor=12)
     r.rule("C01.5", "evaluated element tables equal the transcribed WHATWG sets (entries marked either-way excepted)", floor=300)
     ambient(ctx)
     dispatch(ctx)
@@ -654,6 +793,8 @@ def run(ctx):
     content_model(ctx)
     fragment_state(ctx)
     frameset_ok(ctx)
+    reconstruct(ctx)
+    search_direction(ctx)
     standard_tables(ctx)
 
 
@@ -701,6 +842,11 @@ def mutants():
           "        token[\"selfClosingAcknowledged\"] = True\n\n    def startTagImage", "C01.6"),
         T("frameset-ok-div", "html5parser.py", "    def startTagCloseP(self, token):\n        if self.tree.elementInScope(\"p\", variant=\"button\"):\n            self.endTagP(impliedTagToken(\"p\"))\n        self.tree.insertElement(token)",
           "    def startTagCloseP(self, token):\n        if self.tree.elementInScope(\"p\", variant=\"button\"):\n            self.endTagP(impliedTagToken(\"p\"))\n        self.tree.insertElement(token)\n        self.parser.framesetOK = False", "C01.6"),
+        T("nobr-stale-reconstruct", "html5parser.py", "            self.processEndTag(impliedTagToken(\"nobr\"))\n            # XXX Need tests that trigger the following\n            self.tree.reconstructActiveFormattingElements()\n",
+          "            self.processEndTag(impliedTagToken(\"nobr\"))\n", "C01.7"),
+        T("hr-reconstructs", "html5parser.py", "    def startTagHr(self, token):\n        if self.tree.elementInScope(\"p\", variant=\"button\"):\n            self.endTagP(impliedTagToken(\"p\"))\n",
+          "    def startTagHr(self, token):\n        if self.tree.elementInScope(\"p\", variant=\"button\"):\n            self.endTagP(impliedTagToken(\"p\"))\n        self.tree.reconstructActiveFormattingElements()\n", "C01.7"),
+        T("scope-forward", "treebuilders/base.py", "        for node in reversed(self.openElements):\n            if exactNode and node == target:", "        for node in self.openElements:\n            if exactNode and node == target:", "C01.8"),
         T("scope-drop-td", "constants.py", '    (namespaces["html"], "td"),\n    (namespaces["html"], "th"),\n    (namespaces["mathml"], "mi"),',
           '    (namespaces["html"], "th"),\n    (namespaces["mathml"], "mi"),', "C01.5"),
         T("svg-attr-case", "constants.py", '"viewbox": "viewBox"', '"viewbox": "viewbox"', "C01.5"),
@@ -719,6 +865,7 @@ def preserving():
           '    "button": (frozenset(set(scopingElements) | frozenset([(namespaces["html"], "button")])), False),', None),
         T("formatting-const-edit", "constants.py", '    (namespaces["html"], "tt"),\n    (namespaces["html"], "u")\n])',
           '    (namespaces["html"], "tt")\n])', None),
+        T("reversed-call", "treebuilders/base.py", "        for elm in self.openElements[::-1]:\n            if elm.name == \"table\":", "        for elm in reversed(self.openElements):\n            if elm.name == \"table\":", None),
         T("swap-stores", "html5parser.py",
           "        self.originalPhase = self.phase\n\n        self.phase = self.phases[\"text\"]",
           "        saved = self.phase\n        self.phase = self.phases[\"text\"]\n        self.originalPhase = saved", None),
